@@ -44,6 +44,30 @@ def gen_config_for(rng, repo, select_all=False):
                         e["arches"].append(a)
                 e["source"] = e["source"] or src
         cfg["codenames"][cn] = cfg_cn
+    # a first line that names two codenames at once (deb ... cn1,cn2 comps): the per-codename lines above then widen each of
+    # them separately (own PRNG, so that everything else of the world stays what it was before this was added)
+    r2 = random.Random("multi-codename" + repr(lines))
+    cns = sorted(repo["codenames"])
+    if len(cns) >= 2 and r2.random() < 0.4:
+        a, b = r2.sample(cns, 2)
+        common_c = [c for c in repo["codenames"][a]["components"] if c in repo["codenames"][b]["components"]]
+        if common_c:
+            sub = r2.sample(common_c, r2.randint(1, len(common_c)))
+            if r2.random() < 0.5:
+                lines.insert(0, f"deb-src {url} {a},{b} {' '.join(sub)}")
+                arches, src = [], True
+            else:
+                arches = [r2.choice(sorted({x for cp in repo["codenames"][a]["components"].values() for x in cp.get("binaries", {}) if x != "all"} or {"amd64"}))]
+                src = False
+                lines.insert(0, f"deb [arch={arches[0]}] {url} {a},{b} {' '.join(sub)}")
+            for cn in (a, b):
+                cfg_cn = cfg["codenames"].setdefault(cn, {})
+                for c in sub:
+                    e = cfg_cn.setdefault(c, {"arches": [], "source": False})
+                    for x in arches:
+                        if x not in e["arches"]:
+                            e["arches"].append(x)
+                    e["source"] = e["source"] or src
     lines.append(f"clean {url}")
     # package filters (C01/C09: "after the configured package filters") and ignore_errors paths (C02)
     bins = sorted({p["name"] for cs in repo["codenames"].values() for cp in cs["components"].values()
